@@ -38,9 +38,13 @@ CONSTANTS
   EnvActs,     \* names of the environment actions that are enabled
   FaultActs,   \* subset of {"WriteErr", "WriteTorn", "Die", "SignFail"} that are enabled
   MaxEnv,      \* bound on the number of environment actions in a behaviour; 0 = unbounded
-  UsesProfile  \* the entities whose configuration references the (one) shared profile
+  UsesProfile  \* the entities whose configuration references the (one) shared profile at the start (the user can change
+               \* that: s.usesp, action SetProfile)
 
 NoHash == 99            \* "no hash line"; not a content value
+ProfBase == 10          \* profile part of an effective configuration: 0 = no profile referenced, ProfBase + c = the shared profile
+                        \* with content value c (a configuration that references a profile differs from one that does not,
+                        \* whatever the profile holds)
 
 \* the issuer relation is part of the state (s.par): the user can edit it.  So is the set of entities that have a
 \* configuration file at all (s.present): the user can delete one and put it back; the artifact of an entity without
@@ -52,13 +56,13 @@ IsLeaf(s, e)   == \A c \in Ents : s.par[c] # e
 Dangling(s)    == \E e \in s.present : s.par[e] # "" /\ s.par[e] \notin s.present
 \* the shared profile file is gone while a configuration still references it: planning stops with an error before anything is
 \* generated (s.profp = the profile file exists; user actions RemoveProfile / AddProfile)
-ProfileMissing(s) == ~s.profp /\ \E e \in s.present : e \in UsesProfile
+ProfileMissing(s) == ~s.profp /\ \E e \in s.present : e \in s.usesp
 \* a run over such a directory is refused as a whole: a failed run, nothing written. (Open comes first and refuses a dangling
 \* issuer under any flag set; the profile is looked up while planning, and a run without any generate flag does not plan.)
 Refusing(s, fl) == Dangling(s) \/ (ProfileMissing(s) /\ fl # {})
 
 \* hash / certc: content value of the entity's own configuration the stored hash / the certificate stands for;
-\* hashp / certp: the same for the profile part of the effective configuration (0 for entities without profile);
+\* hashp / certp: the same for the profile part of the effective configuration (0 = no profile, ProfBase + content otherwise);
 \* hashi: the issuer the hashed configuration names ("" for none);
 \* iss: the entity the certificate's issuer DN names ("" = the entity itself: self-signed); issc: that DN's content value;
 \* sigok: the certificate verifies under the public key of the current certificate of the entity `iss` names (its own
@@ -78,10 +82,11 @@ Prefix(a, cut) ==
     [] cut = "hashonly" -> [Absent EXCEPT !.exists = TRUE, !.hash = a.hash, !.hashp = a.hashp, !.hashi = a.hashi]
     [] cut = "nokey"    -> [a EXCEPT !.key = "none"]
 
+ProfVals == {0} \cup {ProfBase + c : c \in Contents}
 ArtOK(a) ==
   /\ a.exists \in BOOLEAN /\ a.cert \in BOOLEAN /\ a.sigok \in BOOLEAN
   /\ a.hash \in Contents \cup {NoHash}
-  /\ a.certc \in Contents /\ a.issc \in Contents /\ a.hashp \in Contents /\ a.certp \in Contents /\ a.expired \in BOOLEAN
+  /\ a.certc \in Contents /\ a.issc \in Contents /\ a.hashp \in ProfVals /\ a.certp \in ProfVals /\ a.expired \in BOOLEAN
   /\ a.key \in {"none", "key", "csr"}
   /\ a.hashi \in Ents \cup {""} /\ a.iss \in Ents \cup {""}
   /\ (~a.exists => a = Absent)
@@ -91,7 +96,7 @@ ArtOK(a) ==
 TypeOK(s) ==
   /\ s.cfgc \in [Ents -> Contents] /\ s.prof \in Contents /\ s.profp \in BOOLEAN
   /\ s.par \in [Ents -> Ents \cup {""}] /\ \A e \in Ents : s.par[e] # e
-  /\ s.present \subseteq Ents
+  /\ s.present \subseteq Ents /\ s.usesp \subseteq Ents
   /\ s.cfgNewer \in [Ents -> BOOLEAN]
   /\ s.mt \in Seq(Ents) /\ Len(s.mt) = Cardinality({s.mt[i] : i \in DOMAIN s.mt})
   /\ {s.mt[i] : i \in DOMAIN s.mt} = {e \in Ents : s.art[e].exists}
@@ -111,7 +116,7 @@ IssNewer(s, e) == s.par[e] # "" /\ MtPos(s, e) > 0 /\ MtPos(s, s.par[e]) > MtPos
 Without(q, e) == SelectSeq(q, LAMBDA x : x # e)
 
 \* the profile part of e's effective configuration
-ProfOf(s, e) == IF e \in UsesProfile THEN s.prof ELSE 0
+ProfOf(s, e) == IF e \in s.usesp THEN ProfBase + s.prof ELSE 0
 HashCurrent(s, e) == s.art[e].hash = s.cfgc[e] /\ s.art[e].hashp = ProfOf(s, e) /\ s.art[e].hashi = s.par[e]
 
 FactsOf(s, e) ==
@@ -262,9 +267,15 @@ Apply(s, a) ==
     [] a.name = "EditProfile" ->   \* the user changes the content of the shared profile
          IF s.pc = "idle" /\ s.profp /\ a.c # s.prof THEN {[s EXCEPT !.prof = a.c, !.last = "env", !.flags = {}]} ELSE {}
     [] a.name = "RemoveProfile" -> \* the user deletes the shared profile file; no configuration, no artifact is touched
-         IF s.pc = "idle" /\ s.profp /\ UsesProfile # {} THEN {[s EXCEPT !.profp = FALSE, !.last = "env", !.flags = {}]} ELSE {}
+         IF s.pc = "idle" /\ s.profp /\ (UsesProfile # {} \/ s.usesp # {}) THEN {[s EXCEPT !.profp = FALSE, !.last = "env", !.flags = {}]} ELSE {}
     [] a.name = "AddProfile" ->    \* ... and puts it back with the content it had (file times of profiles are read by no rule)
          IF s.pc = "idle" /\ ~s.profp THEN {[s EXCEPT !.profp = TRUE, !.last = "env", !.flags = {}]} ELSE {}
+    [] a.name = "SetProfile" ->    \* the user writes the reference to the shared profile into e's configuration, or takes it out
+                                   \* (whether the profile file exists at the moment or not).  No artifact is touched; the
+                                   \* effective configuration of e, and of nobody else, changes.
+         IF a.e \in s.present /\ s.pc = "idle"
+         THEN {[s EXCEPT !.usesp = IF a.e \in @ THEN @ \ {a.e} ELSE @ \cup {a.e}, !.cfgNewer[a.e] = s.art[a.e].exists, !.last = "env", !.flags = {}]}
+         ELSE {}
     [] a.name = "Expire" ->        \* time passes: the certificate of e (intact chain, issuer key at hand) is now expired.
                                    \* No file is touched: the modification-time relations stay as they are.
          IF a.e \in s.present /\ s.pc = "idle" /\ s.art[a.e].cert /\ ~s.art[a.e].expired /\ s.art[a.e].sigok /\ s.art[a.e].key = "key"
@@ -350,7 +361,7 @@ RunMacro(s, a) ==
 VARIABLES st, nenv      \* nenv counts environment actions (only when MaxEnv > 0)
 
 InitState ==
-  [ cfgc |-> [e \in Ents |-> 0], prof |-> 0, profp |-> TRUE, par |-> Parent, present |-> Ents, cfgNewer |-> [e \in Ents |-> FALSE], mt |-> <<>>,
+  [ cfgc |-> [e \in Ents |-> 0], prof |-> 0, profp |-> TRUE, usesp |-> UsesProfile, par |-> Parent, present |-> Ents, cfgNewer |-> [e \in Ents |-> FALSE], mt |-> <<>>,
     art |-> [e \in Ents |-> Absent], pc |-> "idle", plan |-> <<>>, pos |-> 0, flags |-> {}, last |-> "none" ]
 
 Init == st = InitState /\ nenv = 0
@@ -369,9 +380,10 @@ ResaveAct   == "ResaveArt" \in EnvActs /\ \E e \in Ents : EnvStep([name |-> "Res
 BreakSigAct == "BreakSignature" \in EnvActs /\ \E e \in Ents : EnvStep([name |-> "BreakSignature", e |-> e])
 ReplaceAct  == "Replace" \in EnvActs /\ \E e \in Ents : EnvStep([name |-> "Replace", e |-> e])
 MakeCsrAct  == "MakeCsr" \in EnvActs /\ \E e \in Ents : EnvStep([name |-> "MakeCsr", e |-> e])
-EditProfileAct == "EditProfile" \in EnvActs /\ UsesProfile # {} /\ \E c \in Contents : EnvStep([name |-> "EditProfile", c |-> c])
+EditProfileAct == "EditProfile" \in EnvActs /\ (UsesProfile # {} \/ st.usesp # {}) /\ \E c \in Contents : EnvStep([name |-> "EditProfile", c |-> c])
 RemoveProfileAct == "RemoveProfile" \in EnvActs /\ EnvStep([name |-> "RemoveProfile"])
 AddProfileAct == "AddProfile" \in EnvActs /\ EnvStep([name |-> "AddProfile"])
+SetProfileAct == "SetProfile" \in EnvActs /\ \E e \in Ents : EnvStep([name |-> "SetProfile", e |-> e])
 ExpireAct   == "Expire" \in EnvActs /\ \E e \in Ents : EnvStep([name |-> "Expire", e |-> e])
 RemoveConfigAct == "RemoveConfig" \in EnvActs /\ \E e \in Ents : EnvStep([name |-> "RemoveConfig", e |-> e])
 AddConfigAct == "AddConfig" \in EnvActs /\ \E e \in Ents : EnvStep([name |-> "AddConfig", e |-> e])
@@ -386,7 +398,7 @@ WriteTornAct == "WriteTorn" \in FaultActs /\ \E c \in CutClasses : Step([name |-
 DieAct      == "Die" \in FaultActs /\ Step([name |-> "Die"])
 
 Next ==
-  \/ EditAct \/ TouchAct \/ DeleteAct \/ TruncateAct \/ StripKeyAct \/ ResaveAct \/ BreakSigAct \/ ReplaceAct \/ MakeCsrAct \/ EditProfileAct \/ RemoveProfileAct \/ AddProfileAct \/ ExpireAct \/ SetIssuerAct \/ RemoveConfigAct \/ AddConfigAct
+  \/ EditAct \/ TouchAct \/ DeleteAct \/ TruncateAct \/ StripKeyAct \/ ResaveAct \/ BreakSigAct \/ ReplaceAct \/ MakeCsrAct \/ EditProfileAct \/ RemoveProfileAct \/ AddProfileAct \/ SetProfileAct \/ ExpireAct \/ SetIssuerAct \/ RemoveConfigAct \/ AddConfigAct
   \/ StartRunAct \/ WriteOKAct \/ SignFailAct \/ WriteErrAct \/ WriteTornAct \/ DieAct
 
 vars == <<st, nenv>>
